@@ -77,11 +77,13 @@ hc_prop("C01",
 hc_prop("C02",
     lambda tier: [hc("fault-then-fair", 2500, 100000, tier, "C02"),
                   hc("faulty", 800, 30000, tier, "C02"),
-                  hc("blackout", 300, 10000, tier, "C02")],
-    GEN + "non-trivial: scenario reached quiescence and >= 1 Reliable packet had a fragment sent >= 3 times before being delivered.",
+                  hc("blackout", 300, 10000, tier, "C02"),
+                  dict(family="ep-ideal", n=T(tier, 100, 4000), params={})],
+    GEN + "ep-ideal: real Client and Server with independently drawn limits (what each may send, what each can hold, 3 kB..2^64-1) and bursts beyond them on an ideal network: every Reliable packet must reach the other application, none replaced by a data-less placeholder. non-trivial: scenario reached quiescence and >= 1 Reliable packet had a fragment sent >= 3 times before being delivered.",
     "Safety: at every delivery no earlier Reliable packet of the channel is undelivered. Bounded liveness: after the fault phase, progress-based stall detector on virtual time (no delivery / first transmission / ack / window movement for max(600 s, 4*RTO)); at quiescence every Reliable packet delivered exactly once, nothing pending, send buffer zero. Unbounded 'eventually' is restated as bounded progress; horizon without stall is inconclusive.",
     "history oracle + virtual-time progress monitor over fault-then-fair executions",
-    dict(quick=500, thorough=15000), require=["deliveries", "scenarios_quiescent"])
+    dict(quick=500, thorough=15000), require=["deliveries", "scenarios_quiescent"],
+    also=["C05:ep-not-delivered-on-ideal-network", "C05:ep-order-on-ideal-network", "C06:dud-between-uflow-endpoints"])
 
 hc_prop("C05",
     lambda tier: [hc("ideal", 2500, 100000, tier, "C05", packets=T(tier, 300, 1500)),
@@ -96,11 +98,12 @@ hc_prop("C12",
     lambda tier: [hc("faulty", 2000, 80000, tier, "C12"),
                   hc("rate", 600, 20000, tier, "C12"),
                   hc("ideal", 400, 10000, tier, "C12"),
-                  dict(family="solo-api", n=T(tier, 300, 10000), params={"batch": 10, "ops": 400})],
-    GEN + "solo-api: one real sending HalfConnection driven through its API in arbitrary call order (send / step after 0, 0.3, 0.9, 1, 5, 33 ms / flush / honest acknowledgements after a simulated round trip, drawn at random: step() twice in a row, twice within one millisecond, sends between step and flush, several flushes or none), the same boundary model following along. non-trivial: >= 1 fragment retransmitted and >= 1 ack group processed (solo-api: >= 5 steps less than 1 ms apart, >= 3 TimeSensitive packets, >= 3 ack frames).",
+                  dict(family="solo-api", n=T(tier, 300, 10000), params={"batch": 10, "ops": 400}),
+                  dict(family="lifecycle", n=T(tier, 300, 10000), params={})],
+    GEN + "lifecycle (real Client / Server): packets of every mode handed to Client::send() while the client is still connecting; a TimeSensitive one among them must never reach the server application. solo-api: one real sending HalfConnection driven through its API in arbitrary call order (send / step after 0, 0.3, 0.9, 1, 5, 33 ms / flush / honest acknowledgements after a simulated round trip, drawn at random: step() twice in a row, twice within one millisecond, sends between step and flush, several flushes or none), the same boundary model following along. non-trivial: >= 1 fragment retransmitted and >= 1 ack group processed (solo-api: >= 5 steps less than 1 ms apart, >= 3 TimeSensitive packets, >= 3 ack frames).",
     "Reference model fed from the wire and from the ack frames handed to the sender (acceptance rule: bitfield non-zero, all ids in the sender's log, nonce parity) decides per fragment whether a (re)transmission is allowed for its mode.",
     "reference-model monitor on wire frames and ack inputs",
-    dict(quick=500, thorough=15000), require=["frag_retx", "ack_groups_processed", "sub_ts", "solo_steps_less_than_1ms_apart"])
+    dict(quick=500, thorough=15000), require=["frag_retx", "ack_groups_processed", "sub_ts", "solo_steps_less_than_1ms_apart", "c12_ts_sends_before_connect"])
 
 hc_prop("C13",
     lambda tier: [hc("rate", 2500, 80000, tier, "C13"),
@@ -269,7 +272,7 @@ ep_prop("C07",
                   ep("limits", 400, 15000, tier, "C07"),
                   dict(family="ep-ideal", n=T(tier, 100, 4000), params={})],
     "handshake: 1..6 (thorough 24) clients connect at once through loss / duplication / delay of handshake frames and targeted loss of the first 0..11 SYNs, SYN-ACKs or ACKs, nonces incl. 0, 2^32-1 and 20-bit wrap values; run twice, the second time with forged frames from spoofed sources (SYN-ACK / ACK / error with nonces that were never issued, verbatim replays of earlier genuine handshake frames incl. SYNs, SYNs for tracked addresses, misdirected frames), followed by an echo of packets of every mode and one of the maximum size. handshake-mismatch: a grid of client/server limits and a raw wrong-version peer. limits (C17's family, run here for its handshake leftovers): more handshakes in flight than the server admits, refusals at SYN time and at activation, refused and disconnected clients coming back from the same address seconds later and staying past every timer of their earlier attempt. ep-ideal: compatible configurations with limits from 3 kB to 2^64-1 must connect, and the SYN / SYN-ACK on the wire must carry each side's configuration capped at 2^32-1. non-trivial: >= 1 forged / duplicated handshake frame reached an endpoint or >= 1 handshake frame lost.",
-    "Wire-level reference check at every Connect (server: an ACK echoing a nonce it sent to that address was delivered; client: a SYN-ACK echoing its SYN nonce was delivered), at every handshake Error event (a matching error frame echoing the nonce was delivered), first data frame ids equal the exchanged nonces, at most one Connect per address, no Disconnect / handshake error on an established connection, refusals carry the right error; after every server call, every address whose connection the server has reported and not ended is still known to Server::client() (`established-connection-untracked`). Twin equality of whole histories was dropped (duplicates legitimately change timing); the invariants run on both runs.",
+    "Wire-level reference check at every Connect (server: an ACK echoing a nonce it sent to that address was delivered; client: a SYN-ACK echoing its SYN nonce was delivered), at every handshake Error event (a matching error frame echoing the nonce was delivered), first data frame ids equal the exchanged nonces, at most one Connect per address, no Disconnect / handshake error on an established connection, refusals carry the right error; every SYN delivered to the server is answered within two steps unless the server has a documented reason to ignore it (a connection of that address reported and open, one ended by Disconnect < 21 s ago, a handshake admitted < 23 s ago), and a Connect rests on a SYN-ACK first sent < 23 s earlier (`syn-ignored-without-reason`, `connect-from-expired-handshake`); after every server call, every address whose connection the server has reported and not ended is still known to Server::client() (`established-connection-untracked`). Twin equality of whole histories was dropped (duplicates legitimately change timing); the invariants run on both runs.",
     "history oracle on handshake wire trace + forged-frame injection",
     dict(quick=800, thorough=20000), require=["c07_server_connects_checked", "c07_client_connects_checked", "c07_first_data_frames_checked", "replayed_genuine_handshake_frame", "forged_ack_wrong_nonce", "c07_mismatch_cases_checked"])
 
@@ -294,10 +297,10 @@ ep_prop("C09",
 
 ep_prop("C10",
     lambda tier: [ep("timers", 3000, 100000, tier, "C10")],
-    "timers: one client and a server with active timeouts 1..120 s, keepalive on/off with intervals 0.5..30 s, SYN / SYN-ACK / ACK lost 0..11 times (handshakes lasting 0..22 s), step cadences 1 ms..1 s, busy then idle phases, a total or one-way blackout from a random moment; in 40 % of scenarios one side calls disconnect / disconnect_now 0 ms..10 s after its Connect event (also while a handshake resend timer may still be pending) and the first 0..11 or all of its Disconnect requests are lost; 15 % are the plain keepalive case: a short exchange in both directions, then 1..3 minutes idle on a loss-free network with keepalive on both sides, small steps and latencies. non-trivial: a timeout fired, a disconnect attempt was judged, or the connection stayed idle for >= 3 timeouts.",
+    "timers: one client and a server with active timeouts 1..120 s, keepalive on/off with intervals 0.5..30 s, SYN / SYN-ACK / ACK lost 0..11 times (handshakes lasting 0..22 s), step cadences 1 ms..1 s, busy then idle phases, a total or one-way blackout from a random moment; in 40 % of scenarios one side calls disconnect / disconnect_now 0 ms..10 s after its Connect event (also while a handshake resend timer may still be pending) and the first 0..11 or all of its Disconnect requests are lost; 15 % are the plain keepalive case: a short exchange in both directions, then 1..3 minutes idle on a loss-free network with keepalive on both sides or on one side only (a keepalive is answered, which supplies both ends), small steps and latencies. non-trivial: a timeout fired, a disconnect attempt was judged, or the connection stayed idle for >= 3 timeouts.",
     "Reference timer model from the relayed frames and step times: Error(Timeout) on an established connection only at a step where the last read of a Data/Ack/Sync frame (or the establishing handshake frame) is >= active_timeout_ms ago, and at the first such step; handshake attempts end with Timeout after exactly 1+10 SYNs and not before 22 s; server-side pending entries after 11 SYN-ACKs; SYN resends never closer than 2 s; disconnect attempts: requests never closer than 2 s, at most 1+10 of them, Error(Timeout) only after all 11 and not before 22 s after the first, nor later than that plus 12 steps; with keepalive on (both directions inside the documented max(interval, 2 s, RTO) pace, RTO as observed; or, for steps <= 100 ms and latency <= 50 ms, inside max(interval, 2 s) + 3.5 s without reference to the endpoints' own RTO, which is at most 2 s there a priori) an idle connection on a network that lost nothing after the handshake never times out.",
     "reference timer model over recorded deliveries and step times",
-    dict(quick=1500, thorough=30000), require=["c10_timeouts_checked", "c10_handshake_timeouts_checked", "c10_keepalive_cases_checked", "c10_keepalive_cases_checked_fast_domain", "c10_disconnect_attempts_checked", "c10_disconnect_timeouts_checked"])
+    dict(quick=1500, thorough=30000), require=["c10_timeouts_checked", "c10_handshake_timeouts_checked", "c10_keepalive_cases_checked", "c10_keepalive_cases_checked_fast_domain", "c10_keepalive_cases_one_sided", "c10_disconnect_attempts_checked", "c10_disconnect_timeouts_checked"])
 
 ep_prop("C17",
     lambda tier: [ep("limits", 2500, 80000, tier, "C17")],
@@ -311,7 +314,7 @@ ep_prop("C18",
     lambda tier: [ep("amplify", 3000, 100000, tier, "C18"),
                   ep("handshake", 200, 10000, tier, "C18"),
                   ep("limits", 200, 10000, tier, "C18")],
-    "amplify: 1..30 spoofable addresses each send 1..25 datagrams over 28 s: valid SYNs (same and fresh nonce), wrong-version and configuration-refused SYNs, SYN-typed datagrams of every length 5..1471 with a valid CRC, oversized datagrams, stray frames of every other type; the shortest datagrams there are (0..8 bytes of zeros / ones / the CRC of nothing), flooders (a valid SYN then 50..400 small frames of one type, also numbered from the SYN's own nonce); default and full servers, one in five configured with an active timeout of 2 min..1 h and watched for 10 min (otherwise 55 s, so every SYN-ACK resend happens); the server application greets new connections with 0..8 kB. non-trivial: the server sent >= 1 byte to a spoofable address.",
+    "amplify: 1..30 spoofable addresses each send 1..25 datagrams over 28 s: valid SYNs (same and fresh nonce), wrong-version and configuration-refused SYNs, SYN-typed datagrams of every length 5..1471 with a valid CRC, oversized datagrams, stray frames of every other type; the shortest datagrams there are (0..8 bytes of zeros / ones / the CRC of nothing), flooders (a valid SYN then 50..400 small frames of one type, also numbered from the SYN's own nonce); default and full servers, one in five configured with an active timeout of 2 min..1 h and watched for 10 min (otherwise 55 s, so every SYN-ACK resend happens); the server application greets new connections with 0..8 kB; in a third of the scenarios (and every long one) the server application stalls 1..4 times for 2..23 s, so that timers come due late and together. non-trivial: the server sent >= 1 byte to a spoofable address.",
     "Per-address byte counters kept by the virtual network, checked after every server call: for an address from which no ACK echoing a nonce the server sent it has been delivered (verification is taken from the wire, not from the server's own Connect), bytes sent to it stay below bytes received from it; an address that only sent undersized SYN-typed datagrams receives nothing.",
     "byte-accounting monitor at the virtual socket",
     dict(quick=1500, thorough=30000), require=["amp_undersized_syn", "amp_valid_syn_same_nonce", "c18_addresses_that_got_a_reply", "c18_undersized_only_addresses_checked"])
